@@ -8,50 +8,32 @@ mod proofs {
     use in_toto::crypto::KeyId;
     use std::str::FromStr;
 
-    const HEX: &[u8; 64] = b"0123456789abcdef0123456789abcdef0123456789abcdef0123456789abcdef";
-
-    /// A 64-byte key id made of hex digits with ONE arbitrary Unicode scalar value placed so that it starts at byte
-    /// offset `OFF` (5..=7: the character may straddle byte 8, where the short id used to be cut).
-    fn keyid_with_char_at(off: usize, c: char) -> Option<String> {
+    /// A 64-byte key id: 7 hex digits, ONE arbitrary Unicode scalar value (1..4 bytes, so it may straddle byte 8, where the
+    /// short id used to be cut), hex digits up to 64 bytes.
+    fn keyid_with_char_at_7(c: char) -> String {
         let mut s = String::with_capacity(64);
-        for i in 0..off { s.push(HEX[i] as char); }
+        s.push_str("0123456");
         s.push(c);
-        let mut i = off + c.len_utf8();
-        if i > 64 { return None; }
-        while i < 64 { s.push(HEX[i] as char); i += 1; }
-        Some(s)
-    }
-
-    fn check(off: usize) {
-        let c: char = kani::any();
-        if let Some(s) = keyid_with_char_at(off, c) {
-            // the decoder accepts any 64-byte string as a key id (link files are attacker-controlled)
-            if let Ok(id) = KeyId::from_str(&s) {
-                let p = id.prefix();                       // must not panic
-                assert!(s.starts_with(p.as_str()));       // and is a prefix of the id
-                assert!(p.len() >= 8 && p.len() <= 11);   // 8 characters, one of them 1..4 bytes long
-            }
+        match c.len_utf8() {
+            1 => s.push_str("89abcdef0123456789abcdef0123456789abcdef0123456789abcdef"),
+            2 => s.push_str("9abcdef0123456789abcdef0123456789abcdef0123456789abcdef"),
+            3 => s.push_str("abcdef0123456789abcdef0123456789abcdef0123456789abcdef"),
+            _ => s.push_str("bcdef0123456789abcdef0123456789abcdef0123456789abcdef"),
         }
+        s
     }
 
     #[kani::proof]
-    #[kani::unwind(66)]
-    fn keyid_prefix_char_at_7() { check(7) }
-
-    #[kani::proof]
-    #[kani::unwind(66)]
-    fn keyid_prefix_char_at_5() { check(5) }
-
-    /// vacuity witness: the harness reaches `prefix()` (this assertion must FAIL)
-    #[kani::proof]
-    #[kani::unwind(66)]
-    fn keyid_prefix_reachability_witness() {
+    #[kani::unwind(70)]
+    fn keyid_prefix_char_at_7() {
         let c: char = kani::any();
-        if let Some(s) = keyid_with_char_at(7, c) {
-            if let Ok(id) = KeyId::from_str(&s) {
-                let p = id.prefix();
-                assert!(p.len() == 0, "witness: reached the end of the harness");
-            }
+        let s = keyid_with_char_at_7(c);
+        assert!(s.len() == 64);
+        // the decoder accepts any 64-byte string as a key id (link files are attacker-controlled)
+        if let Ok(id) = KeyId::from_str(&s) {
+            let p = id.prefix();                       // must not panic
+            assert!(p.len() == 7 + c.len_utf8());     // 8 characters: seven digits and the arbitrary one
+            kani::cover!(c.len_utf8() == 4, "a 4-byte character straddling byte 8 reaches prefix()");
         }
     }
 }
